@@ -368,6 +368,8 @@ class Facts:
         if name in self._recvars:
             return self._recvars[name]
         self._recvars[name] = None
+        if any(isinstance(n, ast.Attribute) and isinstance(n.ctx, (ast.Store, ast.Del)) and isinstance(n.value, ast.Name) and n.value.id == name for n in own_nodes(self.g.node)):
+            return None  # the record is modified by the consumer
         bs = self.bind.get(name, [])
         if name in self.params and not bs and self.g is not self.scan.a.entry:
             # a parameter that receives such a record at every call site (`for entry in walk(): self._handle(entry)`)
@@ -856,6 +858,15 @@ class Scan:
             return None
         Rh = self.bind_args(g, e, h, R)
         parts = []
+        # the path conditions below are exact for straight-line / branching helpers only: with a return inside a loop or a try block
+        # every part keeps an atom of its own, so that neither "is None" nor "is not None" decides anything it should not
+        loopy = False
+        for r in [n for n in own_nodes(h.node) if isinstance(n, ast.Return)]:
+            q = parent(r)
+            while q is not None and q is not h.node:
+                if isinstance(q, (ast.For, ast.AsyncFor, ast.While, ast.Try)):
+                    loopy = True
+                q = parent(q)
         for r in [n for n in own_nodes(h.node) if isinstance(n, ast.Return)]:
             v = r.value
             if v is None or (isinstance(v, ast.Constant) and v.value is None):
@@ -864,7 +875,7 @@ class Scan:
             plain = isinstance(v, (ast.Constant, ast.JoinedStr, ast.List, ast.Tuple, ast.Dict, ast.Set, ast.ListComp, ast.SetComp, ast.DictComp, ast.GeneratorExp, ast.Compare, ast.Lambda))
             if isinstance(v, ast.Call):
                 plain = self.T.ctor_class(h, v) is not None or (isinstance(v.func, ast.Attribute) and v.func.attr in CONTENT_METHODS - {"open"} | {"join", "format", "resolve", "absolute"}) or (isinstance(v.func, ast.Name) and v.func.id in ("str", "list", "tuple", "set", "dict", "frozenset", "sorted", "bool", "int", "len", "repr")) or lib_name(self.repo, h, v) == "ast.parse"
-            parts.append(gr if plain else f_and([gr, atom(f"{g.qualname}:{norm(e, 60)} -> {norm(v, 60)} is not None")]))
+            parts.append(gr if plain and not loopy else f_and([gr, atom(f"{g.qualname}:{norm(e, 60)} -> {norm(v, 60)} is not None")]))
         return f_or(parts)
 
     def call_truth(self, g: FuncInfo, call: ast.Call, h: FuncInfo, R: frozenset | None, depth: int) -> Formula | None:
